@@ -236,14 +236,24 @@ def _random_chunk(args):
             if atime and entry.startswith("Async"):
                 # asyncio.wait_for needs a running event loop, and that needs awaitable callbacks
                 loop, acb = True, True
+            hang = None
+            rng2 = random.Random(base + i + 7919)
+            if loop and rng2.random() < 0.6:
+                # the attempt timeout fires: some attempts do not come back ("hang" outcome of M,
+                # ATimeout ticks on the virtual clock the event loop reads)
+                hang, atime = 2 * retryenv.vtime.TICK, False
+                for e in ev:
+                    if e["e"] == "invoke" and e["out"] in ("exc", "ok") and rng2.random() < 0.35:
+                        e.update(out="hang", k="UNKNOWN", ra=-1, dur=2)
             obs = retryenv.run_scenario(cfg, ev, entry=entry, perm=perm, place=place,
-                                        async_callbacks=acb, flavours=flav, atimeout=atime, loop=loop)
+                                        async_callbacks=acb, flavours=flav, atimeout=atime, loop=loop,
+                                        hang=hang)
         except Exception as exc:  # noqa: BLE001
             obs = [{"e": "harness-error", "what": f"{type(exc).__name__}: {exc}"}]
         out.append({"cfg": full_cfg(cfg), "ev": obs,
                     "variant": {"entry": entry, "place": place, "async_callbacks": acb,
                                 "permute": perm is not None, "flavours": flav, "atimeout": atime,
-                                "loop": loop}, "script": ev})
+                                "loop": loop, "hang": hang}, "script": ev})
     return out
 
 
@@ -379,7 +389,7 @@ def hang_variants(tier: str) -> list[dict]:
     async runner's timeout is ATimeout ticks of the virtual clock its event loop reads (no real
     waiting); the sync runner waits for its worker thread in real time, hence the sampling."""
     at = 2 * retryenv.vtime.TICK
-    k = 1 if tier == "quick" else 5
+    k = 1 if tier == "quick" else 2
     return [{"entry": "AsyncRetry", "loop": True, "hang": at, "async_callbacks": True},
             {"entry": "AsyncPolicy", "loop": True, "hang": at, "place": "both", "every": 2},
             {"entry": "AsyncRetryPolicy", "loop": True, "hang": at, "place": "ctor", "every": 3, "permute": True},
